@@ -192,12 +192,15 @@ func (p *specProbe) steps(in []rune, start int) int {
 const specStepBudget = 2500
 
 func (p *specProbe) heavy(in []rune, rtl bool) bool {
-	// the recorders search from every start offset, and the specification is evaluated for each of them: the cheap
-	// search from the natural start (an early alternative may succeed at once) says nothing about the others
-	total := 0
+	return p.heavyFor(in, specStepBudget, 4*specStepBudget)
+}
+
+// heavyFor: the same with explicit budgets (per start offset, and over all start offsets of the input)
+func (p *specProbe) heavyFor(in []rune, perStart, total int) bool {
+	sum := 0
 	for st := 0; st <= len(in); st++ {
 		n := p.steps(in, st)
-		if total += n; n > specStepBudget || total > 4*specStepBudget {
+		if sum += n; n > perStart || sum > total {
 			return true
 		}
 	}
